@@ -77,7 +77,7 @@ def docMandatory : List (String × List String) := [
 default, and every `*_from_dict` needs exactly the documented mandatory keys -/
 theorem key_tables_are_documented :
     aliasTable = docAliases ∧ mandatoryKeys = docMandatory ∧ keysDefaultPolicy = "error" ∧
-    keysRaiseSites = [("notkey_found", "policy==\"error\""), ("len(synonyms_found)>1", "policy==\"error\"")] ∧
+    keysRaiseSites = [("notv4", "v2==\"error\""), ("len(v6)>1", "v2==\"error\"")] ∧
     unitsKeywords = ["default", "inherit"] := by
   decide +kernel
 
@@ -409,7 +409,7 @@ theorem env_beyond_list_system_rejected_of_source (stateGiven chemGiven : Bool) 
 /-- the `RDSystem.space` setter compares every cell's environment index with the number of environments
 (repository fix 445be23) … -/
 theorem system_source_checks_env :
-    systemSpaceChecksEnv = true ∧ systemSpaceEnvTests = ["int(e)>=self.network.nenvironments()"] := by decide +kernel
+    systemSpaceChecksEnv = true ∧ systemSpaceEnvTests = ["int(v1)>=self.network.nenvironments()"] := by decide +kernel
 
 /-- … hence a system whose space names an environment beyond the list is refused, with or without explicit
 state and chemostat map -/
@@ -825,7 +825,7 @@ example : (stateIndexOf [some ['A'], some ['B']] (.grid ⟨2, 2, 1, false, false
 /-! ## 7. Coarse-graining index maps -/
 
 theorem index_map_source :
-    indexMapRaiseConds = ["len(im)!=space.size()", "type(i)!=int", "im_min<-1", "im_max<0", "inotinim"] := by decide +kernel
+    indexMapRaiseConds = ["len(v0)!=v1.size()", "type(v2)!=int", "v4<-1", "v3<0", "v2notinv0"] := by decide +kernel
 
 theorem isError_unit_iff (r : Res Unit) : r.isError = true ↔ r ≠ .ok () := by
   cases r with
